@@ -306,10 +306,12 @@ class AccConn:
             self.acc.dispatch(self, req)
 
     # ---- sending
-    def send_http(self, code, reason, body=None, ctype="application/hap+json", kind="HTTP/1.1", cuts=None, delay=0.0):
+    def send_http(self, code, reason, body=None, ctype="application/hap+json", kind="HTTP/1.1", cuts=None, delay=0.0, ctype_name="Content-Type"):
         msg = f"{kind} {code} {reason}\r\n".encode()
         if body is not None:
-            msg += f"Content-Type: {ctype}\r\nContent-Length: {len(body)}\r\n".encode()
+            if ctype is not None:
+                msg += f"{ctype_name}: {ctype}\r\n".encode()
+            msg += f"Content-Length: {len(body)}\r\n".encode()
         msg += b"\r\n" + (body or b"")
         self.send_plain(msg, cuts=cuts, delay=delay)
 
@@ -391,6 +393,8 @@ class SimAccessory:
         self.on_request = None
         self.on_secure = None              # callback(conn) once a session is established on the accessory side
         self.setup_handler = None          # callable(request TLV items) -> raw reply bytes for POST /pair-setup (C03 end to end)
+        self.error_http = (200, "OK", "application/pairing+tlv8", "Content-Type")    # status line and content type of the "error-m2/m4" policies
+        self.tape_m2 = None                # raw M2 of the first honest pair-verify (verify policy "tape" replays it without holding any key)
         self.write_status = {}             # (aid, iid) -> HAP status for writes
         self.subscribe_status = {}         # (aid, iid) -> HAP status for ev requests
         self.values = {}
@@ -497,13 +501,19 @@ class SimAccessory:
             if policy == "http-4xx":
                 return conn.send_http(470, "Connection Authorization Required", tlv_enc([(T_STATE, b"\x02"), (T_ERROR, b"\x02")]), ctype=TLVCT)
             if policy.startswith("error-m2:"):
-                return conn.send_http(200, "OK", tlv_enc([(T_STATE, b"\x02"), (T_ERROR, bytes([int(policy.split(":")[1])]))]), ctype=TLVCT)
+                return conn.send_http(*self.error_http[:2], tlv_enc([(T_STATE, b"\x02"), (T_ERROR, bytes([int(policy.split(":")[1])]))]), ctype=self.error_http[2],
+                                      ctype_name=self.error_http[3])
             if policy == "garbage-m2":
                 return conn.send_http(200, "OK", b"\x06\x01\x02\x03\x20\x01", ctype=TLVCT)
+            if policy == "tape" and self.tape_m2 is not None:
+                conn.verify = "tape"
+                return conn.send_http(200, "OK", self.tape_m2, ctype=TLVCT)
             self.eph_counter += 1
             pv = RefPairVerify(self.ident, refhap.H(b"sim-eph", str(self.eph_counter).encode(), self.ident.pairing_id)[:32])
             conn.verify = pv
             honest = pv.handle_m1(list(d.items()))
+            if policy in ("ok", "tape") and self.tape_m2 is None:
+                self.tape_m2 = tlv_enc(honest)
             if policy == "wrong-id":
                 honest = pv.full_m2(pv.inner_m2(ident_id=b"00:11:22:33:44:55"))
             elif policy == "bad-sig":
@@ -515,12 +525,16 @@ class SimAccessory:
             policy = getattr(conn, "verify_policy", policy)
             if conn.verify is None:
                 return conn.send_http(200, "OK", tlv_enc([(T_STATE, b"\x04"), (T_ERROR, b"\x02")]), ctype=TLVCT)
+            if conn.verify == "tape":
+                # a peer without keys: it can only hope that the controller derives the recorded session again
+                return conn.send_http(200, "OK", tlv_enc([(T_STATE, b"\x04")]), ctype=TLVCT)
             if policy in ("close-after-m3", "reset-after-m3"):
                 return conn.close("fin" if policy.startswith("close") else "reset")
             if policy == "hang-m3":
                 return None
             if policy.startswith("error-m4:"):
-                return conn.send_http(200, "OK", tlv_enc([(T_STATE, b"\x04"), (T_ERROR, bytes([int(policy.split(":")[1])]))]), ctype=TLVCT)
+                return conn.send_http(*self.error_http[:2], tlv_enc([(T_STATE, b"\x04"), (T_ERROR, bytes([int(policy.split(":")[1])]))]), ctype=self.error_http[2],
+                                      ctype_name=self.error_http[3])
             if policy == "garbage-m4":
                 return conn.send_http(200, "OK", b"\x06\x05\x04", ctype=TLVCT)
             pv = conn.verify
